@@ -206,7 +206,7 @@ m('splice-put-error-unknown', 'R17d', 'server/grpc_cas.go',
   '''		return nil, grpc_status.Errorf(codes.Unknown,
 			"Failed to splice blob %s/%d: %s",''')
 m('fetchblob-cache-error-not-translated', 'R17d', 'server/grpc_asset.go',
-  '''		if gRPCErrCode(err, translateGRPCErrCodeFromClient(err)) == codes.ResourceExhausted {''',
+  '''		if gRPCErrCode(err, codes.Unknown) == codes.ResourceExhausted {''',
   '''		if translateGRPCErrCodeFromClient(err) == codes.ResourceExhausted {''')
 m('errcode-507-internal', 'R17d', 'server/grpc.go',
   '''		case http.StatusInsufficientStorage:
@@ -234,8 +234,10 @@ m('update-ac-stdout-put-error-internal', 'R17d', 'server/grpc_ac.go',
   '''		err = s.cache.Put(ctx, cache.CAS, hash, sizeBytes,
 			bytes.NewReader(req.ActionResult.StdoutRaw))
 		if err != nil && err != io.EOF {
+			s.logErrorPrintf(err, "%s %s %s", logPrefix, req.ActionDigest.Hash, err)
 			code := gRPCErrCode(err, codes.Internal)''',
   '''		err = s.cache.Put(ctx, cache.CAS, hash, sizeBytes,
 			bytes.NewReader(req.ActionResult.StdoutRaw))
 		if err != nil && err != io.EOF {
+			s.logErrorPrintf(err, "%s %s %s", logPrefix, req.ActionDigest.Hash, err)
 			code := codes.Internal''')
